@@ -2,7 +2,7 @@
 From Coq Require Import List ZArith QArith Bool Lia Arith.
 Import ListNotations.
 Require Import QV.common.Util QV.C09.Model QV.C09.Proofs QV.C09.Proofs2 QV.C09.Proofs3 QV.C09.Proofs4 QV.C09.Proofs5 QV.C09.Proofs6
-               QV.C09.Proofs7 QV.C09.Proofs7x QV.C09.Proofs8 QV.C09.ProofsR.
+               QV.C09.Proofs7 QV.C09.Proofs7x QV.C09.Proofs8 QV.C09.ProofsR QV.C09.Proofs10.
 
 (* the argument domain: roll_constant_waveforms requires minimal_waveform_quanta >= 1 (Python raises ZeroDivisionError /
    works with negative factors otherwise; the model does not follow the code there) *)
@@ -42,6 +42,8 @@ Proof.
     + unfold raise in Hk. inversion Hk; subst. exact I.
   - (* OReject: nothing happens *)
     eapply run_at_inv; eauto. intros x h' res Rx Hk Okr. cbv beta in Hk. unfold raise in Hk. inversion Hk; subst. exact I.
+  - (* OAddMeas (round 6) *)
+    eapply run_at_inv; eauto. intros x h' res Rx Hk Okr. cbv beta in Hk. eapply add_measurements_inv; eauto.
 Qed.
 
 Lemma history_all : forall ops s,
